@@ -249,6 +249,15 @@ def check_region(case, ctx: Ctx):
 
     cs = case["chromsizes"]
     table = pd.Series([cs[k] for k in case["order"]], index=case["order"]) if case["form"] == "series" else cs
+    # the lengths in any integer type that holds them: a Series of a signed / unsigned / narrow type, or a dict of numpy scalars
+    tdt = ["int64", "uint64", "uint32", "int32", "int64", "UInt64"][(len(str(case["reg"])) + len(cs)) % 6]
+    if tdt != "int64" and max(cs.values()) < 2**31:
+        if case["form"] == "series":
+            table = table.astype(tdt)
+        elif tdt != "UInt64":
+            import numpy as np
+
+            table = {k: np.dtype(tdt).type(v) for k, v in cs.items()}
     reg = case["reg"] if isinstance(case["reg"], str) else tuple(case["reg"])
     if case["expect"] == "error":
         must_raise(f"parse_region({reg!r}, {cs}) [{case['kind']}]", parse_region, reg, table)
@@ -257,7 +266,7 @@ def check_region(case, ctx: Ctx):
         check([got[0], int(got[1]), int(got[2])] == case["expect"],
               lambda: f"parse_region({reg!r}, {cs}) = {got!r}, want {case['expect']}")
     ctx.record(case, case["kind"] != "ok" or None in (case["reg"] if not isinstance(case["reg"], str) else []),
-               ["region", "region-" + case["kind"], "region-" + case["form"]])
+               ["region", "region-" + case["kind"], "region-" + case["form"], "lengths-" + (tdt if max(cs.values()) < 2**31 else "int64")])
 
 
 # -- URIs -----------------------------------------------------------------
